@@ -328,13 +328,21 @@ func runC20(c *Ctx) {
 	{
 		offset := om("Offset")
 		var q, u *ssa.Call
-		for _, call := range callsToFn(offset, tm("SumUntil")) {
-			q = call.(*ssa.Call)
-		}
+		var qArg ssa.Value
+		eachInstr(offset, func(in ssa.Instruction) {
+			cv, ok := in.(*ssa.Call)
+			if !ok {
+				return
+			}
+			if inner, tr, ok := callTo(cv, func(c2 *ssa.Call) bool { return isCallToFn(c2, tm("SumUntil")) }); ok {
+				q = cv
+				qArg = tr(inner.Call.Args[1])
+			}
+		})
 		for _, call := range callsToFn(offset, tm("Add")) {
 			u = call.(*ssa.Call)
 		}
-		good := q != nil && u != nil && isIndexOf(q.Call.Args[1]) && isIndexOf(u.Call.Args[1]) && isLengthOf(u.Call.Args[2]) && dominatesInstr(q, u)
+		good := q != nil && u != nil && isIndexOf(qArg) && isIndexOf(u.Call.Args[1]) && isLengthOf(u.Call.Args[2]) && dominatesInstr(q, u)
 		applied := false
 		for _, call := range callsToFn(offset, p.Fn("sonic", "OffsetSlot")) {
 			if q != nil && stripConv(call.Common().Args[0]) == ssa.Value(q) {
@@ -358,11 +366,31 @@ func runC20(c *Ctx) {
 			})
 		}
 		rejects := false
+		// the value that becomes the slot's index: the stored sum (also when it is kept in a local first)
+		var shiftedVals []ssa.Value
+		eachInstr(add, func(in ssa.Instruction) {
+			if st, ok := in.(*ssa.Store); ok {
+				if fv, _ := fieldAddrOf(st.Addr); fv == indexF {
+					shiftedVals = append(shiftedVals, stripConv(st.Val))
+				}
+			}
+		})
+		isShifted := func(v ssa.Value) bool {
+			if isIndexOf(v) {
+				return true
+			}
+			for _, sv := range shiftedVals {
+				if stripConv(v) == sv {
+					return true
+				}
+			}
+			return false
+		}
 		for _, r := range returnsOf(add) {
 			if isNil(r.Results[1]) {
 				for _, l := range guardsOf(r.Block()) {
-					op, x, y, ok := l.cmp()
-					if ok && op == token.LSS && isIndexOf(x) {
+					op, _, y, ok := l.cmpWhere(isShifted)
+					if ok && op == token.LSS {
 						if call, ok := stripConv(y).(*ssa.Call); ok && isCallToFn(call, tm("Size")) {
 							rejects = true
 						}
@@ -413,7 +441,7 @@ func runC20(c *Ctx) {
 			}
 			ia, ok := st.Addr.(*ssa.IndexAddr)
 			if ok && loadOfField(ia.X, slotsF) {
-				if call, ok := stripConv(ia.Index).(*ssa.Call); ok && call.Call.StaticCallee() != nil && call.Call.StaticCallee().String() == "sort.Search" {
+				if _, _, ok := callTo(ia.Index, isSortSearch); ok {
 					ins = true
 				}
 			}
@@ -421,7 +449,15 @@ func runC20(c *Ctx) {
 		// the search is a lower bound (first element with seq >= wanted) and a hit is an exact match
 		for _, fn := range []*ssa.Function{cp, cm("Pop")} {
 			lower := false
-			for _, cl := range fn.AnonFuncs {
+			cls := append([]*ssa.Function{}, fn.AnonFuncs...)
+			eachInstr(fn, func(in ssa.Instruction) {
+				if cv, ok := in.(*ssa.Call); ok {
+					if _, _, ok := wrappedCall(cv); ok {
+						cls = append(cls, cv.Call.StaticCallee().AnonFuncs...)
+					}
+				}
+			})
+			for _, cl := range cls {
 				for _, r := range returnsOf(cl) {
 					if bo, ok := stripConv(r.Results[0]).(*ssa.BinOp); ok {
 						op, x, y := bo.Op, bo.X, bo.Y
@@ -483,10 +519,7 @@ func runC20(c *Ctx) {
 			if bo, ok := stripConv(s2.Low).(*ssa.BinOp); ok && bo.Op == token.ADD && stripConv(bo.X) == ix && isConstInt(bo.Y, 1) {
 				lowOK = true
 			}
-			isSearch := false
-			if sc, ok := ix.(*ssa.Call); ok && sc.Call.StaticCallee() != nil && sc.Call.StaticCallee().String() == "sort.Search" {
-				isSearch = true
-			}
+			_, _, isSearch := callTo(ix, isSortSearch)
 			if s1.Low == nil && lowOK && s2.High == nil && isSearch {
 				rem = true
 			} else {
@@ -542,4 +575,8 @@ func loadedFieldDeep(v ssa.Value) *types.Var {
 		return f
 	}
 	return loadedField(resolveThroughLocal(v))
+}
+
+func isSortSearch(c *ssa.Call) bool {
+	return c.Call.StaticCallee() != nil && c.Call.StaticCallee().String() == "sort.Search"
 }
